@@ -1,3 +1,5 @@
+//go:build hc31 || hall
+
 package main
 
 import (
